@@ -121,7 +121,9 @@ def hygId (sfx i : Str) : Bool :=
   !startsWith (ncN i) ncPrefix &&
   sfx != sLog &&
   !(cN sfx i).contains '/' &&
-  !(ncN i).contains '/'
+  !(ncN i).contains '/' &&
+  -- the completed and the not-completed record of one identifier share one md5 side file
+  decide (mdOf sfx (cN sfx i) = mdOf sfx (ncN i))
 
 def hygPair (sfx i j : Str) : Bool :=
   (!decide (mdOf sfx (cN sfx i) = mdOf sfx (cN sfx j)) || decide (cN sfx i = cN sfx j)) &&
@@ -148,7 +150,13 @@ def safe (sfx : Str) (ids : List Str) (d : Dict D) : Op D → Bool
     (d.mode != .w || !has d.completed (cN sfx i)) &&
     -- the not-completed file name is not a completed member's name (possible for suffix "json")
     !has d.completed (ncN i)
-  | .writeLog _ _ => true
+  | .writeLog i _ =>
+    -- log-name hygiene: the file written is `<stem>.log`, has no directory part, and (append mode) the
+    -- name `__contains__` derives from the log identifier is not a completed member
+    decide ((resolve sfx sLog i).file = logName .directory i) &&
+    !(resolve sfx sLog i).file.contains '/' &&
+    !startsWith (resolve sfx sLog i).chk1 ncPrefix &&
+    (d.mode != .a || !has d.completed (resolve sfx sLog i).chk1)
   | .drop i => i.isEmpty || ids.contains i
   | .reopen _ => true
   | .observe => true
@@ -158,5 +166,30 @@ def safe (sfx : Str) (ids : List Str) (d : Dict D) : Op D → Bool
 def safeHist (sfx : Str) (ids : List Str) : Dict D → List (Op D) → Bool
   | _, [] => true
   | d, op :: ops => safe sfx ids d op && safeHist sfx ids (specStep .directory sfx d op) ops
+
+/-- ghost state for the md5 statement: the completed records whose md5 side file is missing —
+    exactly those whose (only) write retired a live not-completed record of the same identifier,
+    because `write` drops the shared md5 file after writing it -/
+def lostStep (sfx : Str) (d : Dict D) (lost : List Str) (op : Op D) : List Str :=
+  match op with
+  | .write i _ =>
+    if rejects .directory sfx d op then lost
+    else if has d.notCompleted (ncN i) then cN sfx i :: lost else lost
+  | _ => lost
+
+def lostRun (sfx : Str) : Dict D → List Str → List (Op D) → List Str
+  | _, lost, [] => lost
+  | d, lost, op :: ops => lostRun sfx (specStep .directory sfx d op) (lostStep sfx d lost op) ops
+
+/-- what each call returns / raises in the dictionary model: a rejected operation raises `IOError`,
+    an accepted write returns the member id; `drop_not_completed()` (all) additionally raises
+    `FileNotFoundError` when `source/not_completed` does not exist (`ncDirExists = false`) -/
+def expectRes (sfx : Str) (d : Dict D) (ncDirExists : Bool) (op : Op D) : Res :=
+  if rejects .directory sfx d op then .err .ioError else
+  match op with
+  | .write i _ => .done (some (cN sfx i))
+  | .writeNc i _ => .done (some (ncPrefix ++ ncN i))
+  | .drop i => if i.isEmpty && !ncDirExists then .err .fileNotFound else .done none
+  | _ => .done none
 
 end CogentModel.DataStoreDict
